@@ -120,7 +120,7 @@ def holdsApprox (n : Nat) (q c : Rat) (g : GoRes) : Verdict :=
         let full (l r : Int) := l ≤ 0 && r ≥ n + 1
         let confOk (l r : Int) : Bool :=
           if full l r then closeR conf 1 tolP 0
-          else let b := band l r; decide (b.lo - 1 / 1000000000 ≤ conf ∧ conf ≤ b.hi + 1 / 1000000000)
+          else let b := band l r; decide (b.lo - 1 / 10000000000000 ≤ conf ∧ conf ≤ b.hi + 1 / 10000000000000)   -- a difference of two float CDF values: 1e-13 absolute
         (g.lo == clampL l && g.hi == clampR r && (!g.amb || full l r == false) && confOk l r && (!g.amb)) ||
         (r - 1 > l && g.lo == clampL l && g.hi == clampR (r - 1) && (g.amb || full l (r - 1)) && confOk l (r - 1))
       verdictOf ("nt approx" ++ (if ls.length > 1 || rs.length > 1 then " rounding-edge" else ""))
